@@ -43,6 +43,8 @@ def _on_alarm(signum, frame):
     now = time.time()
     due = [w for d, w in _limits if d <= now + 0.01]
     what = due[-1] if due else (_limits[-1][1] if _limits else 'call')
+    # fire again shortly in case a broad handler swallows this exception while the limit is still in force
+    signal.setitimer(signal.ITIMER_REAL, 1.0)
     raise Hang(f'{what} did not return within its time limit')
 
 
@@ -339,6 +341,16 @@ def corr_run(ctx, mod):
     except Hang as exc:
         ctx.violation(f'{mod.__name__}/did-not-terminate', f'{exc}: an implementation call driven by {mod.__name__} does not return on this tree',
                       dict(note=str(exc), last_samples=ctx.samples[-2:]))
+
+
+def corr_modules(ctx, spec, names):
+    """run the named model-correspondence modules and merge their theorem lists / trusted base into the check's SPEC"""
+    import importlib
+    for name in names:
+        mod = importlib.import_module(name)
+        corr_run(ctx, mod)
+        spec['theorems'].update(getattr(mod, 'SPEC_THEOREMS', {}))
+        spec['trusted_base'].extend(x for x in getattr(mod, 'TRUSTED', []) if x not in spec['trusted_base'])
 
 
 def as_text(v):
